@@ -159,7 +159,8 @@ def generate(ctx):
     nvar = 1 + tape.draw(4, "nvar")
     ks_var = [1 + tape.draw(size + 2, "kvar") for _ in range(nvar)]
     stream_api = tape.boolean("stream_api")
-    sc = {"file": fd, "schedule": sched, "k": k, "ks_varying": ks_var, "stream_api": stream_api,
+    deferred = tape.boolean("deferred", 1, 3)
+    sc = {"file": fd, "schedule": sched, "k": k, "ks_varying": ks_var, "stream_api": stream_api, "deferred": deferred,
           "file_b": None, "k_b": None, "eio_nth": 0, "interleaving": []}
     if sched == "capped":
         # max_chunk_size = mult * k + add for every k of the sweep: the cap is reached exactly / just missed
@@ -190,22 +191,27 @@ def execute(ctx, sc):
         if sched == "sweep":
             # deterministic inner loop: every k from 1 to size + 2; a failure is re-expressed as schedule=fixed,k
             for k in range(1, f.size + 3):
-                cr = iosim.ChunkedRead(f.spec, k, stream_api=(k % 2 == 0)).run_to_end()
+                cr = iosim.ChunkedRead(f.spec, k, stream_api=(k % 2 == 0), deferred=(k % 3 == 0)).run_to_end()
                 ctx.steps += len(cr.chunk_sizes) + 1
+                if k % 3 == 0 and len(cr.chunk_sizes) >= 2:
+                    ctx.probe("chunks_kept_until_the_end")
                 try:
                     check_read(ctx, f, cr, k, ref, "sweep")
                     check_conservation(f, k)
                 except Violation as v:
                     v.rewrite = {"sched": _weighted_first_value(SCHEDS, "fixed"), "k": k - 1,
-                                 "stream_api": 1 if k % 2 == 0 else 0}
+                                 "stream_api": 1 if k % 2 == 0 else 0, "deferred": 1 if k % 3 == 0 else 0}
                     raise
         elif sched == "capped":
             for k in range(1, f.size + 3):
                 cap = sc["cap_mult"] * k + sc["cap_add"]
                 cr = iosim.ChunkedRead(f.spec, k, stream_api=(k % 2 == 0), cap=cap).run_to_end()
                 ctx.steps += len(cr.chunk_sizes) + 1
-                if cr.error is not None and cr.error.type != "NoProgress" and cap < 2 * f.big + 2:
-                    ctx.probe("raise_under_small_cap_accepted")   # an entry may not fit under the cap: loud, allowed
+                if cr.error is not None and cr.error.type != "NoProgress":
+                    # max_chunk_size is a limit the caller sets and the library documents "raise Exception" for it; the
+                    # property judges reads that complete (the end-of-file terminator the reader appends counts against
+                    # the cap too, so even a cap of the file size can raise): loud, not judged
+                    ctx.probe("raise_under_cap(not judged)")
                     continue
                 check_read(ctx, f, cr, k, ref, "capped")
         else:
@@ -222,7 +228,8 @@ def execute(ctx, sc):
             if sc["eio_nth"]:
                 fs.plant_eio(f.spec.path, "read", sc["eio_nth"])
             with core.chunk_knob(k_eff if use_default else None):
-                actors = [iosim.ChunkedRead(f.spec, ks, use_default=use_default, stream_api=stream_api)]
+                actors = [iosim.ChunkedRead(f.spec, ks, use_default=use_default, stream_api=stream_api,
+                                            deferred=bool(sc.get("deferred")))]
                 refs, files = [ref], [f]
                 if g is not None:
                     refb = iosim.read_whole(g.spec)
